@@ -259,6 +259,15 @@ Section Spec.
   (* tag 1: F2, a directory "<32 hex><suffix>" is planted; tag 2: a re-key fails with DestinationExists (the
      in-memory state point stays modified); tag 3: a document-touching operation through a stale handle;
      tag 4: a state point change raises the lock registry's KeyError *)
+  (* tag 5: a handle opened by id that never loaded its state point cannot re-create / find its job once the
+     job has disappeared: JobsCorruptedError (and init leaves an empty id-named directory behind) *)
+  Definition lazy_gone (r : sres) (out : oval) : nat :=
+    match r, out with
+    | SErr EJobsCorrupted, _ => 0
+    | _, VExn EJobsCorrupted => 5
+    | _, _ => 0
+    end.
+
   Definition trigger (s : sstate) (o : op) (r : sres) (out : oval) : nat :=
     match o with
     | OPlantDir p => if suffix_id_name (last p []) then 1 else 0
@@ -267,10 +276,11 @@ Section Spec.
         | SErr EDestinationExists, _ => 2
         | SErr EKeyError, _ => 0
         | _, VExn EKeyError => 4      (* tag 4: the lock registry lost the entry of this handle's state point file *)
-        | _, _ => 0
+        | _, _ => lazy_gone r out
         end
     | ODoc h | ODocSet h _ _ | ODocReset h _ | OClear h | OReset h | ORemove h =>
-        if stale_handle s h then 3 else 0
+        if stale_handle s h then 3 else lazy_gone r out
+    | OInit _ _ | OSp _ | OMove _ _ | OClone _ _ | OCopy _ | OPickle _ | OCached _ => lazy_gone r out
     | _ => 0
     end.
 
